@@ -1,0 +1,31 @@
+//! Verification hooks (feature `verif-hooks`): read-only views of the three lists.
+use super::TwoQueueCache;
+use crate::lru::RawLRU;
+use crate::DefaultEvictCallback;
+use core::hash::Hash;
+
+impl<K: Hash + Eq, V, RH, FH, GH> TwoQueueCache<K, V, RH, FH, GH> {
+    /// The recent queue.
+    #[doc(hidden)]
+    pub fn verif_recent(&self) -> &RawLRU<K, V, DefaultEvictCallback, RH> {
+        &self.recent
+    }
+
+    /// The frequent queue.
+    #[doc(hidden)]
+    pub fn verif_frequent(&self) -> &RawLRU<K, V, DefaultEvictCallback, FH> {
+        &self.frequent
+    }
+
+    /// The ghost list.
+    #[doc(hidden)]
+    pub fn verif_ghost(&self) -> &RawLRU<K, V, DefaultEvictCallback, GH> {
+        &self.ghost
+    }
+
+    /// The configured quota of the recent queue.
+    #[doc(hidden)]
+    pub fn verif_recent_quota(&self) -> usize {
+        self.recent_size
+    }
+}
